@@ -12,6 +12,7 @@ import (
 	"log"
 	"net"
 	"net/http"
+	"runtime/debug"
 	"sync"
 	"sync/atomic"
 	"syscall"
@@ -72,7 +73,16 @@ type Server struct {
 
 // Serves the connection once we accepted it
 func (server *Server) serveConn(conn net.Conn) {
-	defer recover()
+	// labels for requests_total if serving this connection panics
+	metricOK, metricProto := "0", ""
+	defer func() {
+		// a panic in code called on behalf of this connection (TLS callbacks,
+		// connection state hooks, ...) must not take the whole proxy down
+		if r := recover(); r != nil {
+			server.logf("panic serving %s: %v\n%s", conn.RemoteAddr(), r, debug.Stack())
+			server.metricsRequestsTotalInc(metricOK, metricProto)
+		}
+	}()
 	defer verifhook.At("proxyserver.conn.exit", conn)
 	defer conn.Close()
 	verifhook.At("proxyserver.conn.start", conn)
@@ -114,6 +124,7 @@ func (server *Server) serveConn(conn net.Conn) {
 	server.vlogf("client hello (%s): %x", conn.RemoteAddr(), rec)
 
 	cs := tlsConn.ConnectionState()
+	metricOK, metricProto = "1", cs.NegotiatedProtocol
 
 	// either directly serve the http2 conn, or, send to the channel
 	// where the HTTP/1.1 server is listening to
